@@ -2,6 +2,7 @@ package drive
 
 import (
 	"context"
+	"encoding/hex"
 	"fmt"
 	"net/url"
 	"regexp"
@@ -64,17 +65,19 @@ type gPar struct {
 }
 
 type gen struct {
-	r       *Rand
-	e       *Emitter
-	clients []*gClient
-	grants  []*gGrant
-	devices []*gDevice
-	pars    []*gPar
-	tokens  []string // every token/code name ever seen
-	steps   int
-	bias    string
-	cfg     map[string]string
-	cfgPAR  bool // PAR enforced in this history
+	r        *Rand
+	e        *Emitter
+	clients  []*gClient
+	grants   []*gGrant
+	devices  []*gDevice
+	pars     []*gPar
+	tokens   []string // every token/code name ever seen
+	steps    int
+	bias     string
+	cfg      map[string]string
+	cfgPAR   bool // PAR enforced in this history
+	lateFrom int  // step from which faults, interleaved pairs and odd spellings may appear under every bias
+	tx       bool // the store is transactional in this history
 }
 
 var (
@@ -98,16 +101,89 @@ var verifiers = []string{
 var badVerifiers = []string{
 	"wwwwwwwwwwwwwwwwwwwwwwwwwwwwwwwwwwwwwwwwww", // 42
 	"wwwwwwwwwwwwwwwwwwwwwwwwwwwwwwww",           // 32
-	"w" + strings.Repeat("x", 128),                // 129
+	"w" + strings.Repeat("x", 128),               // 129
 }
 
 func (g *gen) op(line string) string {
 	if g.bias == "C18" {
 		return g.faultyOp(line)
 	}
+	r := g.r
+	// every property's histories: in the last part of a history an endpoint operation now and then meets a
+	// storage fault (one call, sometimes two) and is then usually retried, and a token-endpoint request now and
+	// then carries an unusual grant_type spelling.  From the first such operation on the history is judged by the
+	// correspondence only (the bookkeeping monitors assume fault-free, sequential histories).
+	if g.lateFrom > 0 && g.steps >= g.lateFrom && isEndpointOp(line) && g.bias != "C19" {
+		rate := 3
+		if g.bias == "C20" {
+			rate = 10 // what the client is shown of a storage error is C20's subject
+		}
+		switch x := r.Intn(40); {
+		case x < rate:
+			plan := fmt.Sprintf(",%d:%s", r.Intn(10), faultKinds[r.Intn(len(faultKinds))])
+			if r.Intn(3) == 0 {
+				plan += fmt.Sprintf(",%d:%s", r.Intn(12), faultKinds[r.Intn(len(faultKinds))])
+			}
+			g.e.Do("fault\t" + plan)
+			obs := g.e.Do(line)
+			g.steps++
+			if strings.HasPrefix(obs, "err ") && r.Intn(3) != 0 {
+				obs = g.e.Do(line) // the fault-free retry
+				g.steps++
+			}
+			return obs
+		}
+	}
+	if isTokenOp(line) && r.Intn(30) == 0 {
+		g.e.Do("wire\tgt=" + hex.EncodeToString([]byte(oddGrantType(r, line))))
+	} else if (isTokenOp(line) || strings.HasPrefix(line, "revoke\t")) && r.Intn(25) == 0 {
+		// a confidential client authenticates with HTTP Basic as itself and names somebody else in the body
+		f := strings.Split(line, "\t")
+		if c := g.client(f[1]); c != nil && !c.public && f[0] != "redeemAs" {
+			g.e.Do("wire\tcid=" + hex.EncodeToString([]byte(g.otherClient(f[1]).id)))
+		}
+	}
 	obs := g.e.Do(line)
 	g.steps++
 	return obs
+}
+
+func isTokenOp(line string) bool {
+	switch line[:strings.IndexByte(line+"\t", '\t')] {
+	case "redeem", "redeemAs", "refresh", "devicePoll", "cc", "password":
+		return true
+	}
+	return false
+}
+
+func grantTypeOf(line string) string {
+	switch line[:strings.IndexByte(line+"\t", '\t')] {
+	case "redeem", "redeemAs":
+		return "authorization_code"
+	case "refresh":
+		return "refresh_token"
+	case "devicePoll":
+		return "urn:ietf:params:oauth:grant-type:device_code"
+	case "cc":
+		return "client_credentials"
+	}
+	return "password"
+}
+
+// oddGrantType: spellings of grant_type around the one the request is meant for.  Either the list of values
+// (split at spaces, empty items dropped) is exactly the grant type - then the request is an ordinary one - or it
+// is no single grant type any handler is registered for.
+func oddGrantType(r *Rand, line string) string {
+	gt := grantTypeOf(line)
+	title := strings.ToUpper(gt[:1]) + gt[1:]
+	others := []string{"authorization_code", "refresh_token", "client_credentials", "password"}
+	other := others[r.Intn(len(others))]
+	if other == gt {
+		other = "implicit"
+	}
+	return []string{" " + gt, gt + " ", " " + gt + "  ", // the same single value
+		title, strings.ToUpper(gt), gt + " " + gt, gt + " " + other, other + " " + gt, gt + "x", "unknown_grant", gt + "\t",
+	}[r.Intn(11)]
 }
 
 var faultKinds = []string{"generic", "generic", "serialization", "not_found"}
@@ -211,11 +287,12 @@ func (g *gen) setup() {
 	}
 	deviceLife := []int64{600 * sec, 90 * sec}[r.Intn(2)]
 	parLife := []int64{300 * sec, 45 * sec}[r.Intn(2)]
+	g.tx = g.bias != "C19" && (r.Intn(4) == 0 || (g.bias == "C18" && r.Intn(3) != 0)) // (no transactions under `par`: a snapshot store has no meaning for interleaved requests)
 	g.op(fmt.Sprintf("cfg\trefreshScopes=%s\tscope=%s\taud=%s\tcodeLife=%d\tatLife=%d\trtLife=%d\tpkce=%s\tpkcePublic=%s\tplain=%s\tnoRtIntrospect=%s\tdeviceLife=%d\tparLife=%d\tenforcePAR=%s\tdevMark=%s",
 		encListS(refreshScopes), scopeStrat, audStrat, codeLife, atLife, rtLife, g.cfg["pkce"], g.cfg["pkcePublic"], g.cfg["plain"], b01(r.Intn(5) == 0),
-		deviceLife, parLife, b01(g.cfgPAR), b01(r.Intn(2) == 0 || (g.bias == "C16" && r.Intn(3) != 0)))+
-		"\tjwt="+b01(r.Intn(3) == 0)+ // access tokens are JWTs in a third of the histories
-		"\ttx="+b01(g.bias != "C19" && (r.Intn(4) == 0 || (g.bias == "C18" && r.Intn(3) != 0)))) // (no transactions under `par`: a snapshot store has no meaning for interleaved requests)
+		deviceLife, parLife, b01(g.cfgPAR), b01(r.Intn(2) == 0 || (g.bias == "C16" && r.Intn(3) != 0))) +
+		"\tjwt=" + b01(r.Intn(3) == 0 || (g.bias == "C06" && r.Intn(2) == 0)) + // access tokens are JWTs in a third of the histories (C06: two thirds)
+		"\ttx=" + b01(g.tx))
 	allScopes := []string{"offline", "openid", "a", "b.c", "rt", "offline_access"}
 	if scopeStrat == "wildcard" {
 		allScopes = append(allScopes, "b.*")
@@ -246,6 +323,9 @@ func (g *gen) setup() {
 		}
 		c.aud = pickN(r, allAud, 70)
 		c.redirects = []string{fmt.Sprintf("https://%s.example/cb", c.id)}
+		if r.Intn(4) == 0 {
+			c.redirects = []string{fmt.Sprintf("https://%s.example/cb?tenant=a", c.id)}
+		}
 		if r.Bool() {
 			c.redirects = append(c.redirects, fmt.Sprintf("https://%s.example/cb2", c.id))
 		}
@@ -422,16 +502,16 @@ func (g *gen) redeem(gr *gGrant, kind int) {
 	case 1: // foreign client
 		client = g.otherClient(gr.client).id
 	case 2: // different redirect_uri
-		redirect = []string{"https://evil.example/cb", gr.redirect + "/", "", strings.ToUpper(gr.redirect)}[r.Intn(4)]
+		redirect = nearMissRedirect(r, gr.redirect)
 	case 3: // wrong verifier variants
 		verifier = []string{"", verifiers[(r.Intn(2)+1)%3] + "x", "short", strings.Repeat("v", 129), "has space aaaaaaaaaaaaaaaaaaaaaaaaaaaaaaaaaaaaaaaaaaaaaaaa", gr.verifier + "x", "H(" + gr.verifier + ")"}[r.Intn(7)]
 	case 4: // mutated code
-		code = gr.code + []string{"~r", "~s"}[r.Intn(2)]
+		code = gr.code + []string{"~r", "~s", "~p", "~q"}[r.Intn(4)]
 	case 5: // bad client credentials
 		cred = "0"
 	case 6: // smuggled parameters
-		scopes = []string{"admin", "openid"}
-		aud = []string{"https://evil.example/"}
+		scopes = [][]string{{"admin", "openid"}, {"b.*"}, {"b"}, {"*"}, {"a"}}[r.Intn(5)]
+		aud = [][]string{{"https://evil.example/"}, {"https://api.a/"}, nil}[r.Intn(3)]
 	case 7: // verifier although none was registered
 		if verifier == "" {
 			verifier = verifiers[0]
@@ -452,6 +532,26 @@ func (g *gen) redeem(gr *gGrant, kind int) {
 	}
 }
 
+// nearMissRedirect: a redirect_uri that is not the one the code is bound to - another host, or the same URI
+// up to its trailing slash, case, query, fragment, port or an escape
+func nearMissRedirect(r *Rand, bound string) string {
+	base, query, _ := strings.Cut(bound, "?")
+	alt := base + "?tenant=b"
+	if query == "" {
+		alt = base + "?x=1"
+	} else if query == "tenant=b" {
+		alt = base + "?tenant=a"
+	}
+	vs := []string{"https://evil.example/cb", bound + "/", "", strings.ToUpper(bound), alt, base, bound + "#frag", bound + "&y=2",
+		strings.Replace(bound, "https://", "HTTPS://", 1), strings.Replace(bound, ".example/", ".example:443/", 1),
+		strings.Replace(bound, "/cb", "/%63b", 1), strings.Replace(bound, ".example", ".EXAMPLE", 1), bound + "?"}
+	v := vs[r.Intn(len(vs))]
+	if v == bound {
+		return "https://evil.example/cb"
+	}
+	return v
+}
+
 func (g *gen) refresh(gr *gGrant, kind int) {
 	r := g.r
 	if len(gr.rts) == 0 {
@@ -465,12 +565,13 @@ func (g *gen) refresh(gr *gGrant, kind int) {
 	case 2:
 		client = g.otherClient(gr.client).id
 	case 3:
-		tok += []string{"~r", "~s"}[r.Intn(2)]
+		tok += []string{"~r", "~s", "~p", "~q"}[r.Intn(4)]
 	case 4:
 		cred = "0"
 	case 5:
-		scopes = []string{"admin"}
-		aud = []string{"https://evil.example/"}
+		// parameters that try to change the grant: unrelated, patterns and parents of what was granted, everything
+		scopes = [][]string{{"admin"}, {"b.*"}, {"b"}, {"*"}, {"offline", "b.*", "a"}, {"a"}, {"openid", "B.C"}}[r.Intn(7)]
+		aud = [][]string{{"https://evil.example/"}, {"https://api.a/"}, {"https://api.a/v1/sub"}, nil}[r.Intn(4)]
 	case 6: // an earlier generation replayed by somebody else
 		tok = gr.rts[r.Intn(len(gr.rts))]
 		client = g.otherClient(gr.client).id
@@ -484,13 +585,19 @@ func (g *gen) anyToken() string {
 		return "garbage"
 	}
 	t := g.tokens[g.r.Intn(len(g.tokens))]
-	switch g.r.Intn(12) {
+	switch g.r.Intn(14) {
 	case 0:
 		return t + "~r"
 	case 1:
 		return t + "~s"
 	case 2:
 		return []string{"garbage", "foreign"}[g.r.Intn(2)]
+	case 3, 4:
+		// white space behind it.  (White space in front of a token, "~q", keeps the signature part intact and makes
+		// the random part undecodable: the token and code flows refuse it like any other inexact copy, which is
+		// where the generator uses it; a bare IntrospectToken reports the decoder's error instead of a signature
+		// mismatch, a distinction no HTTP response carries and the model does not make.)
+		return t + "~p"
 	}
 	return t
 }
@@ -573,7 +680,8 @@ func (g *gen) introspect(tok string) {
 			ckind, carg = "bearer", tok // the inspected token itself
 		case 7:
 			base := func() string { return strings.SplitN(g.recentToken(), "~", 2)[0] }
-			ckind, carg = "bearer", []string{"garbage", "foreign", base() + "~r", base() + "~s"}[r.Intn(4)]
+			ckind, carg = "bearer", []string{"garbage", "foreign", base() + "~r", base() + "~s", base() + "~p",
+				strings.SplitN(tok, "~", 2)[0] + "~p"}[r.Intn(6)] // (the last one: the inspected token itself, padded)
 		}
 		g.op(fmt.Sprintf("introspectHTTP\t%s\t%s\t%s\t%s\t%s\t%s", ckind, carg, ccred, tok, hint, encListS(scopes)))
 		return
@@ -685,12 +793,12 @@ func (g *gen) concurrent() {
 	}
 	n := len(ops)
 	var sched []string
-	switch r.Intn(4) {
-	case 0: // alternating
+	switch r.Intn(5) {
+	case 0, 1: // alternating: every request has looked before any of them writes
 		for k := 0; k < 40; k++ {
 			sched = append(sched, fmt.Sprint(k%n))
 		}
-	case 1: // one after the other (some order)
+	case 2: // one after the other (some order)
 		first := r.Intn(n)
 		for k := 0; k < 20; k++ {
 			sched = append(sched, fmt.Sprint(first))
@@ -907,7 +1015,7 @@ func (g *gen) parStep() {
 	case 1:
 		uri = "P999"
 	case 2, 3:
-		extra = []string{"redirect_uri", "scope", "state", "response_type", "audience"}[:1+r.Intn(5)]
+		extra = pickN(r, []string{"redirect_uri", "scope", "state", "response_type", "audience", "response_mode"}, 45)
 	}
 	gs := pickN(r, p.gs, 90)
 	obs := g.op(fmt.Sprintf("authorizePar\t%s\t%s\t%s\t%s\t%s\t%s", client, uri, encListS(extra), encListS(gs), "", []string{"alice", "bob", ""}[r.Intn(3)]))
@@ -932,6 +1040,10 @@ func (g *gen) parStep() {
 func (g *gen) History(n int) {
 	g.setup()
 	r := g.r
+	g.lateFrom = n*6/10 + r.Intn(n*3/10+1)
+	if g.bias == "C20" {
+		g.lateFrom = n / 5 // (the taint and leak scans do not depend on fault-free bookkeeping)
+	}
 	for g.steps < n {
 		var pending, live []*gGrant
 		for _, gr := range g.grants {
@@ -946,11 +1058,20 @@ func (g *gen) History(n int) {
 		if g.bias == "C16" && r.Intn(3) == 0 {
 			x = 106 // device flows dominate
 		}
-		if g.bias == "C17" && r.Intn(3) == 0 {
+		if (g.bias == "C17" || g.bias == "C13") && r.Intn(3) == 0 {
 			x = 112 // PAR flows dominate
 		}
 		if g.bias == "C19" && r.Intn(4) == 0 && g.steps > 6 {
 			g.concurrent()
+			continue
+		}
+		parRate := 22
+		switch g.bias {
+		case "C01", "C04", "C08", "C16", "C17": // the once-only properties see more interleaved pairs
+			parRate = 8
+		}
+		if g.bias != "C19" && g.bias != "C18" && !g.tx && g.steps >= g.lateFrom && r.Intn(parRate) == 0 {
+			g.concurrent() // every property's histories end with the occasional pair of interleaved requests
 			continue
 		}
 		if g.bias == "C18" && r.Intn(5) == 0 {
